@@ -886,7 +886,7 @@ func traceTrap(c *eng.Ctx, t int, rng *rand.Rand) {
 
 func run(c *eng.Ctx) error {
 	nF29 := 1
-	per := c.N(30, 400)
+	per := c.N(30, 250)
 	total := nF29 + 3*per
 	c.Traces(total, func(t int, rng *rand.Rand) {
 		switch { // the F29 schedule comes last: a rejected trace at the end of the log costs no second TLC pass
